@@ -324,7 +324,26 @@ func (p *Program) GenFunc(fc *FuncContract, prop string) (res *FuncResult) {
 		}
 		rsc := &Scope{ex: ex, names: rn, st: r.st, old: old, bound: map[string]Term{}}
 		for _, lt := range fc.PostLets {
-			rn[lt.Name] = Val{T: vc.Define("plet_"+lt.Name, rsc.eval(lt.Expr))}
+			func() {
+				defer func() {
+					if r := recover(); r != nil {
+						se, isSpec := r.(specError)
+						if !isSpec {
+							panic(r)
+						}
+						// a postlet that names a local variable which does not exist yet on this return path denotes
+						// that variable's zero value there (nil for maps and slices)
+						if lt.Expr.Op == "id" {
+							if t := localTypeByName(fn, lt.Expr.Name); t != nil {
+								rn[lt.Name] = Val{T: vc.zeroTerm(vc.SortOf(t))}
+								return
+							}
+						}
+						panic(se)
+					}
+				}()
+				rn[lt.Name] = Val{T: vc.Define("plet_"+lt.Name, rsc.eval(lt.Expr))}
+			}()
 		}
 		for _, w := range fc.Witness {
 			if _, bound := rn[w.Name]; bound {
@@ -612,4 +631,20 @@ func specDirDefault() string {
 		}
 	}
 	return "/verif/spec"
+}
+
+// localTypeByName: the type of the (first) local variable of fn with this source name, from its debug references.
+func localTypeByName(fn *ssa.Function, name string) types.Type {
+	for _, b := range fn.Blocks {
+		for _, ins := range b.Instrs {
+			if d, ok := ins.(*ssa.DebugRef); ok {
+				if obj := d.Object(); obj != nil && obj.Name() == name {
+					if _, isVar := obj.(*types.Var); isVar {
+						return obj.Type()
+					}
+				}
+			}
+		}
+	}
+	return nil
 }
